@@ -428,6 +428,75 @@ def _followed_by(fnode, st, pred):
     return False
 
 
+def sm_const(ctx):
+    """The model matrices an EstimationModel is constructed with (F, G, H, P, q, v, the index
+    bookkeeping) are constants of the object: only the estimates (bias, transform - and caches
+    derived from them) change after construction.  A method that stores into one of them,
+    directly or through a local that is the attribute itself (`H = self.H; H[...] = ...`),
+    changes every matrix handed out earlier and what the next call starts from."""
+    ctx.rule('SM-CONST', 'no method of EstimationModel other than the constructor stores into the '
+             'model matrices (directly or through an un-copied local alias)')
+    em = ctx.repo.klass('inertial_sensor.EstimationModel')
+    init = em.methods['__init__']
+    consts = {norm_text(st.targets[0]).replace('self.', '') for st in ast.walk(init.node)
+              if isinstance(st, ast.Assign) and len(st.targets) == 1 and
+              isinstance(st.targets[0], ast.Attribute) and
+              norm_text(st.targets[0].value) == 'self'}
+    state = {'bias', 'transform'} | set(_lazy_caches(em))
+    consts -= state
+    ctx.floor('SM-CONST', len(consts), 6, 'constructor attributes')
+    n = 0
+    for mname, m in em.methods.items():
+        if mname == '__init__':
+            continue
+        ctx.touch(m)
+        alias = {}
+        for st in ast.walk(m.node):
+            if isinstance(st, ast.Assign) and len(st.targets) == 1 and \
+                    isinstance(st.targets[0], ast.Name) and \
+                    isinstance(st.value, ast.Attribute) and norm_text(st.value.value) == 'self' \
+                    and st.value.attr in consts:
+                alias[st.targets[0].id] = st.value.attr
+        for st in ast.walk(m.node):
+            tg = None
+            if isinstance(st, ast.Assign):
+                tg = st.targets[0]
+            elif isinstance(st, ast.AugAssign):
+                tg = st.target
+            if tg is None:
+                continue
+            base = tg
+            while isinstance(base, ast.Subscript):
+                base = base.value
+            hit = None
+            if isinstance(base, ast.Attribute) and norm_text(base.value) == 'self' and \
+                    base.attr in consts and (base is not tg or isinstance(st, ast.AugAssign)):
+                hit = base.attr
+            elif isinstance(base, ast.Name) and base.id in alias and \
+                    (base is not tg or isinstance(st, ast.AugAssign)):
+                # the alias must still be the attribute here: it was bound once, un-copied
+                binds = [x for x in ast.walk(m.node) if isinstance(x, ast.Assign) and
+                         any(isinstance(t_, ast.Name) and t_.id == base.id for t_ in x.targets)]
+                if all(isinstance(x.value, ast.Attribute) for x in binds) or \
+                        any(x.lineno <= st.lineno and isinstance(x.value, ast.Attribute) and
+                            not any(y.lineno > x.lineno and y.lineno <= st.lineno
+                                    for y in binds if y is not x) for x in binds):
+                    hit = alias[base.id]
+            if hit:
+                n += 1
+                ctx.ob('SM-CONST', False, None, '%s does not store into self.%s' % (mname, hit),
+                       f=m, node=st, key='%s-%s' % (mname, hit),
+                       why='%s stores into the model matrix self.%s (`%s`%s): the matrix is a '
+                           'constant of the model - matrices returned by earlier calls change '
+                           'with it, and two uses of one model object see each other\'s values'
+                           % (mname, hit, norm_text(st)[:60],
+                              '' if isinstance(base, ast.Attribute) else
+                              ', `%s` being self.%s itself, not a copy' % (base.id, hit)))
+    ctx.ob('SM-CONST', True, None, '%d methods scanned for stores into %s' % (len(em.methods) - 1,
+                                                                           sorted(consts)),
+           key='scanned')
+
+
 def sm_accum(ctx):
     ctx.rule('SM-ACCUM', 'update_estimates: every write is += of the zipped state element')
     ctx.rule('SM-ATTRS', 'reset_estimates re-initialises every attribute that update_estimates '
